@@ -755,7 +755,12 @@ func (g *Gen) Select(wantAlias bool) *GSelect {
 			case 3:
 				e = call(TS, "lower", &GExpr{Kind: "value", T: TS})
 			default:
-				e = g.S(1, "")
+				if r.Bool() {
+					e = call(TN, "int", &GExpr{Kind: "value", T: TS})
+					e.NK = "i"
+				} else {
+					e = g.S(1, "")
+				}
 			}
 			f := GField{E: e}
 			if e.Kind != "key" && e.Kind != "value" || r.Bool() {
@@ -763,6 +768,13 @@ func (g *Gen) Select(wantAlias bool) *GSelect {
 			}
 			q.Fields = append(q.Fields, f)
 			q.Group = append(q.Group, len(q.Fields)-1)
+		}
+		// aggregate arguments may name the group-by aliases
+		for _, gi := range q.Group {
+			f := q.Fields[gi]
+			if f.Alias != "" {
+				g.aliases = append(g.aliases, galias{f.Alias, f.E.T, f.E.NK})
+			}
 		}
 		na := r.Range(1, 3)
 		for i := 0; i < na; i++ {
